@@ -66,7 +66,7 @@ theorem step_frame (w : World) (tid i : Nat) (h : i ≠ tid) : (w.runTask tid).t
 /-- **Own writes only.**  Under every schedule (cancellations included), for every task `i` that is a transaction
 block (context-manager form on a context object of its own, context-manager form on ONE context object shared by all the tasks
 and entered by several of them at once, or decorator form — the form is not looked at by any rule: after the repairs of D12 and
-D45 nothing a block remembers is shared between tasks through the object —, nested blocks inside, explicit
+D51 nothing a block remembers is shared between tasks through the object —, nested blocks inside, explicit
 `tx.commit()` / `tx.rollback()` calls inside).  `specBody` is the body's sequential meaning, a fold that knows nothing of
 locks, schedules or other tasks: a body is a sequence of segments separated by its explicit commits / rollbacks;
 `s.done` = the commits of the explicitly committed segments, `commitMuts s` = the commit of the segment open at the end.
@@ -618,7 +618,7 @@ example : (fun w : World => ((w.tasks 0).pc, mineOf w 0, w.store 0, w.store 2, (
     (.finished (.returned [some 2, some 3]), [.setMany [(1, 5), (2, 7), (0, 3), (3, 9)]], some 7, some 7,
      .finished (.returned [some 7])) := by decide
 
-/-- **one shared context object** (`T = cache.transaction(m)` at module level, `async with T:` in two tasks at once; defect D45 kept
+/-- **one shared context object** (`T = cache.transaction(m)` at module level, `async with T:` in two tasks at once; defect D51 kept
 the block's state on the object): each task runs its own transaction — the raising one applies nothing, the other one commits
 its own writes; task 0 re-enters the object nested in itself -/
 def exShared (m : Mode) : List Task :=
